@@ -638,6 +638,59 @@ async fn exec_step(ctx: &mut Ctx, step: &Value) -> (String, String, Value) {
             }
             out
         }
+        "cleanup" => {
+            // remove old versions through handle `h` (possibly stale), then re-read every version
+            let d = handle!();
+            let policy = lance::dataset::cleanup::CleanupPolicy {
+                before_timestamp: None,
+                before_version: step.get("before_version").and_then(|v| v.as_u64()),
+                delete_unverified: step.get("delete_unverified").and_then(|v| v.as_bool()).unwrap_or(false),
+                error_if_tagged_old_versions: step.get("error_if_tagged").and_then(|v| v.as_bool()).unwrap_or(false),
+            };
+            let hv = d.manifest().version;
+            let r = d.cleanup_with_policy(policy).await;
+            let out = res_of(&r);
+            let mut rereads = vec![];
+            let mut tags: Vec<(String, u64)> = vec![];
+            if let Ok(l) = Dataset::open(&ctx.uri).await {
+                let latest = l.manifest().version;
+                for v in 1..=latest {
+                    match l.checkout_version(v).await {
+                        Ok(dv) => match project(&dv).await {
+                            Ok(p) => rereads.push(json!([v, p])),
+                            Err(e) => rereads.push(json!([v, {"error": classify(&e)}])),
+                        },
+                        Err(e) => rereads.push(json!([v, {"error": classify(&e)}])),
+                    }
+                }
+                if let Ok(t) = l.tags().list().await {
+                    tags = t.into_iter().map(|(k, v)| (k, v.version)).collect();
+                    tags.sort();
+                }
+            }
+            extra = json!({"hv": hv, "old_versions": r.as_ref().map(|s| s.old_versions as i64).unwrap_or(-1),
+                           "rereads": rereads, "tags": tags});
+            out
+        }
+        "age_files" => {
+            // make every object of the table look older than the cleanup safety window
+            fn age(p: &std::path::Path, t: std::time::SystemTime) -> std::io::Result<()> {
+                for e in std::fs::read_dir(p)? {
+                    let e = e?;
+                    if e.file_type()?.is_dir() {
+                        age(&e.path(), t)?;
+                    } else {
+                        std::fs::File::options().write(true).open(e.path())?.set_modified(t)?;
+                    }
+                }
+                Ok(())
+            }
+            let t = std::time::SystemTime::now() - std::time::Duration::from_secs(9 * 24 * 3600);
+            match age(std::path::Path::new(&ctx.uri), t) {
+                Ok(_) => ("ok".into(), String::new()),
+                Err(e) => ("io".into(), e.to_string()),
+            }
+        }
         "tag" => {
             let r = async {
                 let d = open_ds(ctx).await?;
